@@ -885,6 +885,19 @@ func c11Checkpoint(e *sim.Env, net *gen.Net, nw *simnet.Net, tree *gen.Tree, dom
 			return
 		}
 	}
+	if e.Verbose {
+		for _, l := range node.lastLogs(4000) {
+			e.Logf("LOG cpnode: %.400s", l)
+		}
+		for _, l := range honest[0].lastLogs(25) {
+			e.Logf("LOG honest0: %.400s", l)
+		}
+		var ps []string
+		for _, p := range node.sy.Peers() {
+			ps = append(ps, fmt.Sprintf("%s synced=%v err=%v", p.Addr(), p.Synced(), p.Err()))
+		}
+		e.Logf("cpnode peers: %v bans=%v; honest0 bans=%v", ps, node.ps.banList(), honest[0].ps.banList())
+	}
 	e.Violationf("C11.syncs-to-honest-chain", "checkpoint-node-stalled", "20 simulated minutes after starting from checkpoint %v with an honest peer the node sits on %v instead of %s", cp.Index(), node.s.cm.Tip(), dominant.Describe())
 }
 
